@@ -298,12 +298,14 @@ example :
 /-! ## selection laws -/
 
 /-- **ratio split of a view**: the first `n1` samples and the rest, in order — for records,
-targets and (when there is one weight per sample) weights alike; names are kept -/
+targets and (when there is one weight per sample) weights alike; a weight vector of any other length
+(`with_weights` checks nothing) is carried by neither part; names are kept -/
 theorem split_take_drop [DecidableEq T] (n1 : Nat) (ds a b : DS R T W) (h : splitView n1 ds = some (a, b)) :
     n1 ≤ ds.n ∧
     a.recs = ds.recs.take n1 ∧ b.recs = ds.recs.drop n1 ∧
     a.tgts = ds.tgts.take n1 ∧ b.tgts = ds.tgts.drop n1 ∧
     (ds.weights.length = ds.n → a.weights = ds.weights.take n1 ∧ b.weights = ds.weights.drop n1) ∧
+    (ds.weights.length ≠ ds.n → a.weights = [] ∧ b.weights = []) ∧
     a.recs ++ b.recs = ds.recs ∧ a.tgts ++ b.tgts = ds.tgts ∧
     a.fnames = ds.fnames ∧ b.fnames = ds.fnames ∧ a.tnames = ds.tnames ∧ b.tnames = ds.tnames := by
   unfold splitView at h
@@ -313,9 +315,11 @@ theorem split_take_drop [DecidableEq T] (n1 : Nat) (ds a b : DS R T W) (h : spli
     simp only [Option.some.injEq, Prod.mk.injEq] at h
     obtain ⟨ha, hb⟩ := h
     subst ha; subst hb
-    refine ⟨by omega, rfl, rfl, rfl, rfl, ?_, by simp, by simp, rfl, rfl, rfl, rfl⟩
-    intro hw
-    simp [hw]
+    refine ⟨by omega, rfl, rfl, rfl, rfl, ?_, ?_, by simp, by simp, rfl, rfl, rfl, rfl⟩
+    · intro hw
+      simp [hw]
+    · intro hw
+      simp [hw]
 
 example : (splitView 2 (mkDS 1 1 true [[0], [8], [16]] [[5], [6], [7]] [1, 2, 3] [] [])).map
     (fun ab => (ab.1.recs, ab.1.weights, ab.2.tgts, ab.2.weights)) = some ([[0], [8]], [1, 2], [[7]], [3]) := by
@@ -435,13 +439,15 @@ theorem keptIdx_spec [DecidableEq T] (labs : List T) (tgts : List (List T)) :
   · exact List.Pairwise.filter _ List.pairwise_lt_range
 
 /-- **label filtering keeps exactly the samples carrying one of the listed labels** (positions
-`keptIdx`, see `keptIdx_spec`), moves records, targets and weights by the same positions, keeps
-the names, and **reports the label counts of the kept targets** -/
+`keptIdx`, see `keptIdx_spec`), moves records, targets and weights by the same positions (a weighted
+input gives a weighted result with one weight per kept sample; only an unweighted input gives an
+unweighted result), keeps the names, and **reports the label counts of the kept targets** -/
 theorem with_labels_filter [DecidableEq T] (labs : List T) (ds d : DS R T W) (h : withLabels labs ds = some d) :
     let kept := keptIdx labs (ds.tgts.take ds.n)
     d.recs = kept.filterMap (ds.recs[·]?) ∧ d.tgts = kept.filterMap (ds.tgts[·]?) ∧
     d.recs.length = kept.length ∧ d.tgts.length = kept.length ∧
-    (d.weights = [] ∨ d.weights = kept.filterMap (ds.weights[·]?)) ∧
+    (ds.weights = [] → d.weights = []) ∧ (ds.weights ≠ [] → d.weights = kept.filterMap (ds.weights[·]?)) ∧
+    (ds.weights ≠ [] → d.weights.length = kept.length) ∧
     d.counts = some (labelCount ds.t d.tgts) ∧ d.fnames = ds.fnames ∧ d.tnames = ds.tnames := by
   unfold withLabels at h
   simp only at h
@@ -454,13 +460,15 @@ theorem with_labels_filter [DecidableEq T] (labs : List T) (ds d : DS R T W) (h 
     | some g =>
       by_cases hw : ds.weights.isEmpty = true
       · simp [kept, hr, hg, hw] at h; subst h
-        exact ⟨selRows_filterMap hr, selRows_filterMap hg, selRows_length hr, selRows_length hg, Or.inl rfl, rfl, rfl, rfl⟩
+        have he : ds.weights = [] := List.isEmpty_iff.mp hw
+        exact ⟨selRows_filterMap hr, selRows_filterMap hg, selRows_length hr, selRows_length hg, fun _ => rfl,
+          fun hne => absurd he hne, fun hne => absurd he hne, rfl, rfl, rfl⟩
       · cases hws : selRows kept ds.weights with
         | none => simp [kept, hr, hg, hw, hws] at h
         | some w =>
           simp [kept, hr, hg, hw, hws] at h; subst h
           exact ⟨selRows_filterMap hr, selRows_filterMap hg, selRows_length hr, selRows_length hg,
-            Or.inr (selRows_filterMap hws), rfl, rfl, rfl⟩
+            fun he => absurd (List.isEmpty_iff.mpr he) hw, fun _ => selRows_filterMap hws, fun _ => selRows_length hws, rfl, rfl, rfl⟩
 
 example :
     let r := withLabels [7, 9] (mkDS 1 2 false [[0], [8], [16], [24]] [[5, 7], [6, 6], [9, 5], [7, 7]] [1, 2, 3, 4] [] [])
@@ -470,7 +478,7 @@ example :
   decide
 
 /-- **one-vs-all yields one correctly labelled binary view per label of the dataset**: the labels
-reported are `labelsOf ds` (the keys of the label counts), in that order, and the view for `l`
+reported are `labelsOf ds` (the code's own scan of the targets, first appearance first), in that order, and the view for `l`
 has `y_i = (t_i = l)` over the same records, weights and names, with freshly counted labels -/
 theorem one_vs_all_labels [DecidableEq T] (ds : DS R T W) :
     (oneVsAll ds).map (·.1) = labelsOf ds ∧
@@ -532,11 +540,14 @@ example :
     r.map (·.map fun d => (d.weights, d.tnames)) = some [([1, 2], ["a"]), ([1, 2], ["b"])] := by
   decide
 
-/-- **chunking**: chunk `i` is samples `[i*size, (i+1)*size)`, records and targets cut alike -/
+/-- **chunking**: chunk `i` is samples `[i*size, (i+1)*size)`, records and targets cut alike (row `k` of
+chunk `i` is sample `i*size + k`); a chunk carries neither weights nor names -/
 theorem sample_chunks_blocks [DecidableEq T] (size : Nat) (ds : DS R T W) (outs : List (DS R T W))
     (h : sampleChunks size ds = some outs) :
     0 < size ∧ outs.length = ds.n / size ∧ ∀ i d, outs[i]? = some d →
-      d.recs = (ds.recs.drop (i * size)).take size ∧ d.tgts = (ds.tgts.drop (i * size)).take size := by
+      d.recs = (ds.recs.drop (i * size)).take size ∧ d.tgts = (ds.tgts.drop (i * size)).take size ∧
+      d.weights = [] ∧ d.fnames = [] ∧ d.tnames = [] ∧ AlignedBy (fun k => i * size + k) id id id ds d := by
+  have hal := sampleChunks_alignedBy h
   unfold sampleChunks at h
   split at h
   · simp at h
@@ -548,8 +559,9 @@ theorem sample_chunks_blocks [DecidableEq T] (size : Nat) (ds : DS R T W) (outs 
     simp only [List.getElem?_map, Option.map_eq_some_iff] at hd
     obtain ⟨x, hx, e⟩ := hd
     obtain ⟨hxi, _⟩ := range_get hx
+    have ha := hal i d (by simpa [List.getElem?_map] using ⟨x, hx, e⟩)
     subst hxi; subst e
-    exact ⟨rfl, rfl⟩
+    exact ⟨rfl, rfl, rfl, rfl, rfl, ha⟩
 
 /-- **target mapping, views, `to_owned`** change no sample: same records in the same order,
 targets mapped cell by cell (resp. unchanged) -/
@@ -622,18 +634,22 @@ theorem label_counts_count [DecidableEq T] (col : List T) :
 
 example : countCol [5, 7, 5, 5, 9] = [(5, 3), (7, 1), (9, 1)] := by decide
 
-/-- **one view per distinct label**: on a dataset with fresh counts (plain targets, or cached counts
-that are counts — `apply_counts_fresh`) `one_vs_all` reports every label occurring in the
-targets, each exactly once, and no other (closes the gap left by `one_vs_all_labels`) -/
-theorem one_vs_all_distinct [DecidableEq T] (ds : DS R T W) (h2 : ∀ g ∈ ds.tgts, g.length = ds.t) (hc : CountsOk ds) :
+/-- **one view per distinct label**: `one_vs_all` reports every label occurring in the targets, each
+exactly once, and no other — unconditionally: since repo commit 95005d8 the code scans the targets
+itself (`labelsOf`) instead of reading the cached label counts, and so does the model -/
+theorem one_vs_all_distinct [DecidableEq T] (ds : DS R T W) :
     ((oneVsAll ds).map (·.1)).Nodup ∧ ∀ l, l ∈ (oneVsAll ds).map (·.1) ↔ ∃ g ∈ ds.tgts, l ∈ g := by
   rw [(one_vs_all_labels ds).1]
-  exact labelsOf_spec h2 hc
+  exact labelsOf_spec ds
+
+/-- a stale cache changes nothing: the views of a dataset whose cached counts are wrong are those of
+the same dataset with no cache at all -/
+theorem one_vs_all_ignores_cache [DecidableEq T] (ds : DS R T W) (c : Option (List (List (T × Nat)))) :
+    oneVsAll { ds with counts := c } = oneVsAll ds := rfl
 
 example :
-    let ds := mkDS 1 1 true [[0], [8], [16], [24]] [[5], [6], [5], [2]] [] [] []
-    (∀ g ∈ ds.tgts, g.length = ds.t) ∧ CountsOk ds ∧ (oneVsAll ds).map (·.1) = [5, 6, 2] :=
-  ⟨by decide, fun c hc => by simp [mkDS] at hc, by decide⟩
+    let ds : DS Nat Nat Nat := { mkDS 1 1 true [[0], [8], [16], [24]] [[5], [6], [5], [2]] [] [] [] with counts := some [[(9, 4)]] }
+    (oneVsAll ds).map (·.1) = [5, 6, 2] := by decide
 
 /-- **per-sample iteration** yields, for a dataset with one target row per record, exactly `n`
 pairs, the `k`-th being the record and the target row of sample `k` -/
@@ -689,5 +705,97 @@ example :
   ⟨⟨⟨by decide, by decide, by decide⟩, Or.inr (by decide), Or.inr (by decide), Or.inr (by decide)⟩,
    ⟨Or.inr (by decide), Or.inr (by decide), by simp [InRange, mkDS, DS.n], by simp [InRange, mkDS]⟩, ⟨rfl, rfl, by decide⟩,
    by simp [Guard]⟩
+
+/-! ## round 3: the guard the driver evaluates, histories as the driver runs them, named witnesses -/
+
+/-- **the driver's guard is the theorems' guard**: `guardB` (Model/Dataset.lean, evaluated by the
+driver before every operation) decides `Guard` (the hypothesis of `apply_total`) -/
+theorem guardB_iff (op : Op T) (ds : DS R T W) : guardB op ds = true ↔ Guard op ds := by
+  cases op <;>
+    simp [guardB, Guard, inRangeB, InRange, and_assoc]
+
+example :
+    let ds := mkDS 2 1 true [[0, 1], [8, 9], [16, 17]] [[0], [1], [0]] [1000, 1001, 1002] ["f0", "f1"] ["t0"]
+    guardB (.bootstrap 2 1 [2, 0] [1]) ds = true ∧ guardB (.bootstrap 2 1 [3, 0] [1]) ds = false ∧
+    guardB (.splitOwned true 4) ds = false ∧ guardB (.withLabels [1]) { ds with weights := [1000] } = false := by
+  decide
+
+/-- inside the guard the driver's `apply` returns (the form of `apply_total` the driver relies on) -/
+theorem apply_total_guardB [DecidableEq T] (ofBool : Bool → T) (op : Op T) (ds : DS R T W) (hw : WF ds)
+    (hg : guardB op ds = true) : (apply ofBool op ds).isSome :=
+  apply_total ofBool op ds hw ((guardB_iff op ds).mp hg)
+
+/-- **the driver's history is `runSeq`**: `runTrace` — the recursion the driver checks its own loop
+against on every request, keeping the datasets of every step — ends where `runSeq` ends, so
+`aligned_history` / `history_counts_fresh` speak about the datasets the correspondence compares -/
+theorem runTrace_final [DecidableEq T] (ofBool : Bool → T) (ops : List (Op T × Nat)) :
+    ∀ ds : DS R T W, (runTrace ofBool ops ds).2 = runSeq ofBool ops ds := by
+  induction ops with
+  | nil => intro ds; rfl
+  | cons s rest ih =>
+    obtain ⟨op, k⟩ := s
+    intro ds
+    simp only [runTrace, runSeq]
+    cases ha : apply ofBool op ds with
+    | none => rfl
+    | some outs =>
+      simp only []
+      cases hk : outs[k]? with
+      | none => rfl
+      | some d => simp only [ih d]
+
+/-- every step of the trace is what `apply` returned on the dataset picked before it -/
+theorem runTrace_head [DecidableEq T] (ofBool : Bool → T) (op : Op T) (k : Nat) (rest : List (Op T × Nat))
+    (ds : DS R T W) (outs : List (DS R T W)) (d : DS R T W) (ha : apply ofBool op ds = some outs) (hk : outs[k]? = some d) :
+    runTrace ofBool ((op, k) :: rest) ds = (outs :: (runTrace ofBool rest d).1, (runTrace ofBool rest d).2) := by
+  simp [runTrace, ha, hk]
+
+example :
+    let ds : DS Nat Nat Nat := mkDS 2 1 true [[0, 1], [8, 9], [16, 17], [24, 25]] [[0], [1], [0], [2]] [1000, 1001, 1002, 1003] ["f0", "f1"] ["t0"]
+    ((runTrace (fun b => if b then 1 else 0) [(.splitView 3, 0), (.withLabels [0, 2], 0), (.oneVsAll, 0)] ds).1.map (·.length)) = [2, 1, 1] := by
+  decide
+
+/-- **the combined bootstrap names its witness**: row `k` of `bootstrap((ns, nf))` is sample `idx[k]`,
+record column `j` is column `fidx[j]` (the RNG's draws), targets untouched per row -/
+theorem bootstrap_both_mem [DecidableEq T] (ns nf : Nat) (idx fidx : List Nat) (ds d : DS R T W)
+    (h : bootstrap ns nf idx fidx ds = some d) :
+    AlignedBy (fun k => idx.getD k 0) (fun j => fidx.getD j 0) id id ds d ∧
+    d.recs.length = idx.length ∧ d.tgts.length = idx.length ∧ d.p = fidx.length := by
+  unfold bootstrap at h
+  cases hs : bootstrapSamples ns idx ds with
+  | none => simp [hs] at h
+  | some d1 =>
+    simp only [hs] at h
+    have hm := bootstrap_mem ns idx ds d1 hs
+    refine ⟨(bootstrapSamples_alignedBy hs).trans (bootstrapFeatures_alignedBy h), ?_⟩
+    unfold bootstrapFeatures at h
+    split at h
+    · simp at h
+    · cases hr : selCols fidx d1.recs with
+      | none => simp [hr] at h
+      | some r =>
+        simp [hr] at h; subst h
+        exact ⟨by rw [← hm.1]; exact mapM_length hr, hm.2.1, rfl⟩
+
+/-- **owned split of a dataset whose weight vector is not one per sample** (`with_weights` checks
+nothing): the first part keeps the whole vector, the second carries none — as the code does; both
+parts are still aligned (`split_owned_take_drop`: weight `k` of the first part is weight `k` of the input) -/
+theorem split_owned_weights_mismatch (std : Bool) (n1 : Nat) (ds a b : DS R T W)
+    (h : splitOwned std n1 ds = some (a, b)) (hw : ds.weights.length ≠ ds.n) :
+    a.weights = ds.weights ∧ b.weights = [] := by
+  unfold splitOwned at h
+  split at h
+  · simp at h
+  split at h
+  · simp at h
+  · rename_i hn
+    simp only [Option.some.injEq, Prod.mk.injEq] at h
+    obtain ⟨ha, hb⟩ := h
+    have : ¬ ds.weights.length = n1 + (ds.n - n1) := by omega
+    subst ha; subst hb
+    simp [this]
+
+example : (splitOwned true 1 (mkDS 1 1 true [[0], [8]] [[5], [6]] [1, 2, 3] [] [])).map
+    (fun ab => (ab.1.weights, ab.2.weights)) = some ([1, 2, 3], []) := by decide
 
 end LinfaSpec.Props.C02
